@@ -3,6 +3,7 @@
    witness starts with a simple handshake (C1 version field 0), so no HMAC is
    ever computed and the statements hold for any HMAC function. *)
 From Lal Require Import Common.LBytes Common.Res Rtmp.RtmpChunk Rtmp.RtmpComposer Rtmp.RtmpHandshake Rtmp.RtmpSession.
+From Lal Require Media.MediaMsgChecked.
 Open Scope N_scope.
 
 (* C0 = 3, C1 = 1536 zero bytes, C2 = 1536 zero bytes *)
@@ -22,7 +23,9 @@ Definition w_conn : bytes := [3; 0; 0; 0; 0; 0; 35; 20; 0; 0; 0; 0; 2; 0; 7; 99;
 (* audio message, 3 bytes *)
 Definition w_aud : bytes := [6; 0; 0; 0; 0; 0; 3; 8; 1; 0; 0; 0; 175; 1; 2].
 
-Definition w_env : senv := mk_env [48; 44; 51; 55; 44; 52] [] 0 true true.
+Definition w_env : senv := mk_env [48; 44; 51; 55; 44; 52] [] 0 true true false 0 0.
+(* the same with "log": {"level": 0} (trace) *)
+Definition w_env_trace : senv := mk_env [48; 44; 51; 55; 44; 52] [] 0 true true true 0 0.
 
 Section Pinned.
 Variable hmac : bytes -> bytes -> bytes.
@@ -73,6 +76,53 @@ Lemma fixed_valid_session :
 Proof.
   cbv zeta. split; [vm_compute; reflexivity|]. split; [vm_compute; reflexivity|].
   split; vm_compute; reflexivity.
+Qed.
+
+(* a video message with an empty payload / an audio message of one byte while the log level is trace:
+   RunLoop's trace logging calls IsAvcKeySeqHeader / IsAacSeqHeader, which indexed Payload[0], Payload[1]
+   unguarded before C05's repairs *)
+Definition w_video0 : bytes := [7; 0; 0; 0; 0; 0; 0; 9; 1; 0; 0; 0].
+Definition w_audio1 : bytes := [6; 0; 0; 0; 0; 0; 1; 8; 1; 0; 0; 0; 175].
+Lemma pinned_trace_logging :
+  r_out (run_session hmac sv_pinned w_env_trace (w_handshake ++ w_video0)) = OPanic MediaMsgChecked.s_avcsh /\
+  r_out (run_session hmac sv_pinned w_env_trace (w_handshake ++ w_audio1)) = OPanic MediaMsgChecked.s_aacsh /\
+  r_out (run_session hmac sv_fixed w_env_trace (w_handshake ++ w_video0)) = OClose e_unexpected_msg /\
+  r_out (run_session hmac sv_fixed w_env_trace (w_handshake ++ w_audio1)) = OClose e_unexpected_msg.
+Proof. split; [|split; [|split]]; vm_compute; reflexivity. Qed.
+
+(* the composer's old memory rule ([sv_premem]): four chunks (12-byte header declaring a 16 MiB message, 128
+   bytes of body) on four chunk stream ids: 64 MiB reserved for 3633 bytes received *)
+Definition w_decl (csid : N) : bytes := [csid; 0; 0; 0; 255; 255; 255; 9; 1; 0; 0; 0] ++ repeat 0 128.
+Definition w_decl4 : bytes := w_decl 3 ++ w_decl 4 ++ w_decl 5 ++ w_decl 6.
+Lemma premem_declared_length :
+  let input := w_handshake ++ w_decl4 in
+  lenN input = 3633 /\
+  mem_reserved (r_mem (run_session hmac sv_premem w_env input)) = 67108860 /\
+  mem_reserved (r_mem (run_session hmac sv_fixed w_env input)) = 16384.
+Proof. cbv zeta. split; [|split]; vm_compute; reflexivity. Qed.
+
+(* 128 of 300 bytes of a message, Set Chunk Size 0xFFFFFFFF, then a header that declares 100 bytes for the
+   same message: the remaining length wraps to 2^32 - 28 and is reserved in one piece *)
+Definition w_shrink : bytes :=
+  [6; 0; 0; 0; 0; 1; 44; 8; 1; 0; 0; 0] ++ repeat 0 128 ++
+  [2; 0; 0; 0; 0; 0; 4; 1; 0; 0; 0; 0; 255; 255; 255; 255] ++
+  [6; 0; 0; 0; 0; 0; 100; 8; 1; 0; 0; 0].
+Lemma premem_shrinking_header :
+  4294967296 <= mem_reserved (r_mem (run_session hmac sv_premem w_env (w_handshake ++ w_shrink))) /\
+  r_out (run_session hmac sv_premem w_env (w_handshake ++ w_shrink)) = OContinue err_eof /\
+  mem_reserved (r_mem (run_session hmac sv_fixed w_env (w_handshake ++ w_shrink))) = 4096 /\
+  r_out (run_session hmac sv_fixed w_env (w_handshake ++ w_shrink)) = OClose err_len_bigger.
+Proof. split; [|split; [|split]]; vm_compute; try reflexivity. discriminate. Qed.
+
+(* a connect command after publish: before C20's repair the session accepted it (rewriting appName / tcUrl of a
+   session the upper layer already reads, and - F-C04-4 - queueing four replies that shared one buffer); the
+   upper layer was notified of a connect on a session that already is a publisher *)
+Lemma pinned_connect_after_publish :
+  (exists evs, handle_tcp_connect hmac sv_pinned w_env (w_handshake ++ w_pub ++ w_conn) = Some evs /\ shell_ok evs = false) /\
+  r_out (run_session hmac sv_fixed w_env (w_handshake ++ w_pub ++ w_conn)) = OClose e_unexpected_msg.
+Proof.
+  split; [|vm_compute; reflexivity].
+  eexists. split; [vm_compute; reflexivity|vm_compute; reflexivity].
 Qed.
 
 End Pinned.
